@@ -108,6 +108,11 @@ type c16Shape struct {
 	empties int    // bitmask: insert an empty WithInterceptors() before group k
 	merge   bool   // wrap all groups together in one outer side-specific options wrapper
 	mergeU  bool   // wrap all groups together in one outer WithOptions (groups plain or nested in WithOptions)
+	// foreign: an interceptor that is not part of the list sits in a group of its
+	// own right after the first group. The groups are sub-slices list[i:j] of one
+	// backing array, as in WithInterceptors(common[:k]...): nothing the library
+	// does with one group may leak into the array behind it.
+	foreign bool
 }
 
 func (s c16Shape) String() string {
@@ -122,6 +127,9 @@ func (s c16Shape) String() string {
 	m := fmt.Sprint(s.merge)
 	if s.mergeU {
 		m = "WithOptions"
+	}
+	if s.foreign {
+		m += "+foreign-after-first-group"
 	}
 	return fmt.Sprintf("list=[%s] groups=%v nest=%v empties=%b merge=%v", strings.Join(p, ","), s.groups, s.nest, s.empties, m)
 }
@@ -147,6 +155,27 @@ func (s c16Shape) build(side string, log *c16Log) (flat []int, hopts []connect.H
 		grp := connect.WithInterceptors(list[off : off+g]...)
 		off += g
 		opts = append(opts, grp)
+		if s.foreign && gi == 0 {
+			// (only used with empties == 0 and nest all zero, so that the option
+			// list stays aligned with the groups below)
+			nfirst := 0
+			for _, b := range s.pattern[:g] {
+				if b {
+					nfirst++
+				}
+			}
+			flat = append(append(append([]int{}, flat[:nfirst]...), 90), flat[nfirst:]...)
+			opts = append(opts, connect.WithInterceptors(&c16Icept{id: 90, side: side, log: log}))
+		}
+	}
+	if s.foreign {
+		var h []connect.HandlerOption
+		var c []connect.ClientOption
+		for _, o := range opts {
+			h = append(h, o)
+			c = append(c, o)
+		}
+		return flat, h, c
 	}
 	wrapH := func(o connect.Option, n int) connect.HandlerOption {
 		switch n {
@@ -271,7 +300,7 @@ func sortPhases(log []string, phases []string) []string {
 
 func c16(run *ev.Run) int {
 	maxN := run.Pick(4, 6)
-	run.SetRule(fmt.Sprintf("cases = all interceptor lists up to length %d with nil at any position x all 2^(n-1) compositions into consecutive WithInterceptors groups x nesting of each group in {plain, WithOptions, WithClientOptions/WithHandlerOptions, two levels} (all nestings for <=2 groups, seeded sample above) x empty groups x all-in-one outer wrapper (side-specific, or one WithOptions holding plain and nested groups side by side); the same option values build the clients and handlers of all 4 kinds (applied 4 times); one real call per kind through the loopback; oracle: per-phase event log == log predicted from the flat declaration-order list, every id exactly once per phase; distinct by (list pattern, grouping, nesting class, kind, side)", maxN))
+	run.SetRule(fmt.Sprintf("cases = all interceptor lists up to length %d with nil at any position x all 2^(n-1) compositions into consecutive WithInterceptors groups x nesting of each group in {plain, WithOptions, WithClientOptions/WithHandlerOptions, two levels} (all nestings for <=2 groups, seeded sample above) x empty groups x a foreign interceptor in a group of its own after the first group (the groups are sub-slices of one backing array) x all-in-one outer wrapper (side-specific, or one WithOptions holding plain and nested groups side by side); the same option values build the clients and handlers of all 4 kinds (applied 4 times); one real call per kind through the loopback; oracle: per-phase event log == log predicted from the flat declaration-order list, every id exactly once per phase; distinct by (list pattern, grouping, nesting class, kind, side)", maxN))
 	var shapes []c16Shape
 	r := run.Rand("c16-shapes")
 	for n := 0; n <= maxN; n++ {
@@ -323,6 +352,10 @@ func c16(run *ev.Run) int {
 						s3 := s
 						s3.merge = true
 						shapes = append(shapes, s3)
+					}
+					if ni == 0 && g >= 1 {
+						s5 := c16Shape{pattern: pattern, groups: comp, nest: make([]int, g), foreign: true}
+						shapes = append(shapes, s5)
 					}
 					if ni%4 == 2 || (g >= 3 && ni > 0) {
 						s4 := s
